@@ -72,6 +72,21 @@ def run_unit(eng, qualname, timeout_ms=10000, instance=None, discharge=True, cro
         for o in obls:
             try:
                 r = solve.discharge(eng, o, timeout_ms=timeout_ms, cross_check=cross_check)
+                if o.parts:
+                    # batched clauses: one query when the batch is discharged, else each clause on its own
+                    subs = []
+                    for nm, cond in o.parts:
+                        so = Obl(nm, o.kind, o.pc, o.axioms, cond, o.props, o.unit, o.path, o.note)
+                        so.inputs = o.inputs
+                        if r['verdict'] == 'proved':
+                            sr = dict(r)
+                            sr['time_s'] = r['time_s'] / len(o.parts)
+                            sr['batched'] = len(o.parts)
+                        else:
+                            sr = solve.discharge(eng, so, timeout_ms=timeout_ms, cross_check=cross_check)
+                        subs.append((so, sr))
+                    res.obls.extend(subs)
+                    continue
             except Exception as e:
                 res.error = 'discharge %s: %s: %s\n%s' % (o.name, type(e).__name__, e, traceback.format_exc())
                 break
